@@ -649,7 +649,9 @@ def _hexlify(ex, a, k):
     if b is None or is_num(b) or isinstance(b, str):
         ex.throw('TypeError', "a bytes-like object is required")
     if isinstance(b, SBytes):
-        return ex.fresh_bytes('hexlify')
+        r = ex.fresh_bytes('hexlify')
+        r.ascii_only = True          # hex digits: decode() never fails
+        return r
     return OPAQUE
 
 
